@@ -403,6 +403,16 @@ preserving('zs1-clamp-not-snap', ['C13'], [(M + 'entangle/eof.py', "    ret = np
 preserving('ln1-conj-of-operator', ['C12'], [(M + 'channel/_internal.py', "    ret = (op @ rho.reshape(-1)).reshape(dim1, dim1)\n    return ret", "    op_dag = op.T.conj()\n    ret = (op_dag.T.conj() @ rho.reshape(-1)).reshape(dim1, dim1)\n    return ret")])
 breaking('DTF1-complex-into-float-buffer', {'C18': 'DTF1'}, edit=[(M + 'state/_internal.py', "    ret[2**np.arange(n,dtype=np.int64)] = np.sqrt(1/n)", "    ret[2**np.arange(n,dtype=np.int64)] = np.exp(1j*np.pi/4)*np.sqrt(1/n)")])
 preserving('dtf1-real-part-into-float-buffer', ['C18'], [(M + 'state/_internal.py', "    ret[2**np.arange(n,dtype=np.int64)] = np.sqrt(1/n)", "    ret[2**np.arange(n,dtype=np.int64)] = (np.exp(1j*0)*np.sqrt(1/n)).real")])
+# ---- behaviour-preserving edits for the round-4/5/6 rules
+preserving('qf1-matrix-on-the-left-kept', ['C12'], [(M + 'utils.py', "            ret = np.vdot(rho1, rho0 @ rho1).real.item()", "            tmp9 = rho0 @ rho1\n            ret = np.vdot(rho1, tmp9).real.item()")])
+preserving('ac1-allclose-with-rtol-zero', ['C20'], [(M + 'matrix_space/_misc.py', "    is_symmetric = (N1==N2) and (np.abs(np0-np0.transpose(0,2,1)).max() < zero_eps)", "    is_symmetric = (N1==N2) and bool(np.allclose(np0, np0.transpose(0,2,1), rtol=0, atol=zero_eps*(1-1e-16)))")])
+preserving('dtype1-membership-test', ['C02', 'C01'], [(M + 'manifold/_stiefel.py', "            tmp0 = ((dim*(dim-1))//2) if (dtype in {torch.float32,torch.float64}) else (dim*dim-1)", "            tmp0 = (dim*dim-1) if (dtype in {torch.complex64,torch.complex128}) else ((dim*(dim-1))//2)")])
+preserving('w10-power-form', ['C02'], [(M + 'manifold/_internal.py', "        tmp1 = np.linalg.inv(tmp0+mat) @ (tmp0-mat)\n        ret = tmp1\n        for _ in range(order-1):\n            ret = ret @ tmp1", "        tmp1 = np.linalg.inv(tmp0+mat) @ (tmp0-mat)\n        ret = np.linalg.matrix_power(tmp1, order)")])
+preserving('len1-size-comparison', ['C10'], [(M + 'random/_spf2.py', "        if not_one and np.array_equiv(ret, 1):", "        if not_one and (int(ret.sum())==ret.size):")])
+preserving('lm2-copy-before-update', ['C20'], [(M + 'matrix_space/_hierarchy.py', "            ABC2 = contract_A_BC(tmp0, tmp1, projA, projBC).reshape(-1)", "            ABC2 = contract_A_BC(tmp0, tmp1, projA, projBC).reshape(-1).copy()")])
+preserving('hm5-conjugate-symmetrisation', ['C13', 'C05'], [(M + 'entangle/_misc.py', "    ret = (np.abs(np.linalg.eigvals(tmp0)).sum()-1) / 2", "    tmp0 = (tmp0 + tmp0.T.conj()) / 2\n    ret = (np.abs(np.linalg.eigvalsh(tmp0)).sum()-1) / 2")])
+preserving('tr1-none-sentinel', ['C11'], [(M + 'sim/state.py', "    index = numqi.utils.hf_tuple_of_int(index)\n    assert all(x==y for x,y in zip(sorted(index),index)), 'index must be sorted'", "    if index is None:\n        index = tuple(range(numqi.utils.hf_num_state_to_num_qubit(q0.shape[0])))\n    index = numqi.utils.hf_tuple_of_int(index)\n    assert all(x==y for x,y in zip(sorted(index),index)), 'index must be sorted'")])
+preserving('s9-parameter-only-guard', ['C10'], [(M + 'entangle/cha.py', "        if num_init_retry>0:\n            self._rand_init_state(np_rng, num_init_retry)", "        if int(num_init_retry)>=1:\n            self._rand_init_state(np_rng, num_init_retry)")])
 # ---- textual breaking edits, one per rule family
 breaking('S3-ambient-draw', {'C10': 'S3'}, edit=[(M + 'random/_internal.py', "tmp0 = np_rng.normal(size=(N0,dim))\n    tmp0 = tmp0 / np.linalg.norm", "tmp0 = np.random.normal(size=(N0,dim))\n    tmp0 = tmp0 / np.linalg.norm")])
 breaking('S4-unseeded-receiver', {'C10': 'S4'}, edit=[(M + 'random/_internal.py', "    np_rng = get_numpy_rng(seed)\n    assert dim>=2\n    tmp0 = np.triu(", "    np_rng = get_numpy_rng(seed)\n    assert dim>=2\n    np_rng = np.random.default_rng(dim)\n    tmp0 = np.triu(")])
